@@ -10,18 +10,20 @@ mcvars == <<vars, last, rej, acc, cnt>>
 NoCall == [k |-> "", ts |-> <<>>, ok |-> TRUE, res |-> 0]
 MCInit == Init /\ last = NoCall /\ rej = {} /\ acc = {} /\ cnt = 0
 
-Ghost(k, atoms) ==
-   LET ts == [i \in DOMAIN atoms |-> AtomTerm(table, atoms[i])]
-       r == Apply(table, nextId, k, atoms, NoRec)
+Ghost(k, atoms, r) ==
+   LET ts == TLCEval([i \in DOMAIN atoms |-> AtomTerm(table, atoms[i])])
    IN /\ last' = [k |-> k, ts |-> ts, ok |-> r.ok, res |-> r.res]
       /\ rej' = IF r.ok THEN rej ELSE rej \cup {<<k, ts>>}
       /\ acc' = IF r.ok THEN acc \cup {<<k, ts>>} ELSE acc
       /\ cnt' = cnt + 1
+\* Mk / MkReject of ExprManager, with the outcome of the call computed once
 MCNext == /\ cnt < MaxOps
           /\ \E call \in Calls :
-                /\ \/ Mk(call[1], call[2], NoRec)
-                   \/ \E gap \in {0, 1} : MkReject(call[1], call[2], NoRec, gap)
-                /\ Ghost(call[1], call[2])
+                LET r == Apply(table, nextId, call[1], call[2], NoRec) IN
+                /\ WFCall(call[1], call[2], table)
+                /\ \/ MkWith(r)
+                   \/ \E gap \in {0, 1} : MkRejectWith(r, gap)
+                /\ Ghost(call[1], call[2], r)
 MCSpec == MCInit /\ [][MCNext]_mcvars
 
 \* the returned node denotes the documented normal form of the call (on terms)
